@@ -160,7 +160,10 @@ func translate(loc Location, n int) Location {
 }
 
 func insert(p []byte, pos int, q []byte) []byte {
-	return append(p[:pos], append(q, p[pos:]...)...)
+	r := make([]byte, 0, len(p)+len(q))
+	r = append(r, p[:pos]...)
+	r = append(r, q...)
+	return append(r, p[pos:]...)
 }
 
 // Insert a sequence at the given index. For any feature whose location covers
